@@ -180,16 +180,30 @@ Theorem C07_reference_of_expected_type_keeps_it : forall mt known steps y,
   end.
 Proof. exact AutoderefProofs.promise_eq_ad0. Qed.
 
-(* the promise `can_autoderef_into x y` is NOT kept in general (what the typer then builds has another
-   type; later stages reject or repair it): the excess `&` of `&&&a` are dropped where `&i32` is expected *)
-Theorem C07_excess_addresses_refuted :
-  exists r, Autoderef.analyze_deref AutoderefProofs.no_members (TypeLegal.VPrim TypeLegal.KInt32) [] 3
-              (Some (TypeLegal.VPointer (TypeLegal.VPrim TypeLegal.KInt32))) = Some r /\
-            r = Autoderef.ADOk [] true (TypeLegal.VPointer (TypeLegal.VPrim TypeLegal.KInt32)) None.
-Proof. eexists. split; [vm_compute; reflexivity | reflexivity]. Qed.
+(* an address is taken only at the right depth (D80, repaired): whenever the typer takes an address without a
+   coercion, the number of `&` written is one more than the pointer depth of the type the steps end at; the
+   excess `&` of `&&&a` where `&i32` is expected are E538, where the pinned commit dropped them *)
+Theorem C07_address_taken_at_the_right_depth : forall mt known target steps ad tk dt,
+  Autoderef.autoderef mt known target steps ad = Autoderef.ADOk tk true dt None ->
+  exists ct dropped,
+    Autoderef.autoderef_loop mt Autoderef.max_num_autoderef_steps known steps = Autoderef.LoopDone tk ct dropped /\
+    dt = TypeLegal.VPointer ct /\ ad = (1 + Autoderef.pointer_depth ct)%N.
+Proof. exact AutoderefProofs.autoderef_take_address. Qed.
+
+Theorem C07_excess_addresses_rejected :
+  Autoderef.autoderef AutoderefProofs.no_members (TypeLegal.VPrim TypeLegal.KInt32) (TypeLegal.VPointer (TypeLegal.VPrim TypeLegal.KInt32)) [] 3
+  = Autoderef.ADError 538%N.
+Proof. vm_compute. reflexivity. Qed.
+
+Theorem C07_pinned_excess_addresses_refuted :
+  Autoderef.autoderef_pinned AutoderefProofs.no_members (TypeLegal.VPrim TypeLegal.KInt32) (TypeLegal.VPointer (TypeLegal.VPrim TypeLegal.KInt32)) [] 3
+  = Autoderef.ADOk [] true (TypeLegal.VPointer (TypeLegal.VPrim TypeLegal.KInt32)) None.
+Proof. exact AutoderefProofs.excess_addresses_accepted_pinned. Qed.
 
 Print Assumptions C07_equals_is_an_equivalence.
 Print Assumptions C07_coercion_is_not_identity.
 Print Assumptions C07_coercion_is_promised_by_autoderef.
 Print Assumptions C07_reference_of_expected_type_keeps_it.
-Print Assumptions C07_excess_addresses_refuted.
+Print Assumptions C07_address_taken_at_the_right_depth.
+Print Assumptions C07_excess_addresses_rejected.
+Print Assumptions C07_pinned_excess_addresses_refuted.
